@@ -309,7 +309,7 @@ func c13Eval(r *vrt.Run, c C13Case) c13Out {
 
 // kinds that satisfy each transform's detector, used to keep "applied" rates up
 var c13Affinity = map[string][]int{
-	"TEXT": {gen.KText, gen.KXML}, "UTF": {gen.KUTF8}, "EXE": {gen.KExeX86, gen.KExeARM}, "MM": {gen.KWav, gen.KBmp},
+	"TEXT": {gen.KText, gen.KXML, gen.KRecords}, "UTF": {gen.KUTF8}, "EXE": {gen.KExeX86, gen.KExeARM}, "MM": {gen.KWav, gen.KBmp},
 	"DNA": {gen.KDNA}, "PACK": {gen.KSmallAlpha, gen.KDNA, gen.KNumeric}, "RLT": {gen.KRuns, gen.KZeros}, "ZRLT": {gen.KRuns, gen.KZeros, gen.KSkewed},
 	"LZP": {gen.KRepeat, gen.KText}, "ROLZ": {gen.KText, gen.KRepeat}, "ROLZX": {gen.KText, gen.KDNA, gen.KExeX86},
 }
@@ -352,7 +352,7 @@ func drawC13(t *rapid.T, maxLen int) C13Case {
 // kindDataType is the hint an earlier stage would plausibly have left for this kind of data.
 func kindDataType(kind int) int {
 	switch kind {
-	case gen.KText, gen.KXML:
+	case gen.KText, gen.KXML, gen.KRecords:
 		return 1
 	case gen.KWav, gen.KBmp:
 		return 2
@@ -407,6 +407,43 @@ func TestC13(t *testing.T) {
 	}
 	r.Rapid(t, "small", 40000, 1200000, prop(70000))
 	r.Rapid(t, "medium", 1500, 40000, prop(1<<20))
+	// Directed family: block lengths around the internal chunk size of the ROLZ codecs (16 MiB: the encoder cuts
+	// chunks over len-4 bytes, the decoder over len bytes) and, thorough, twice that size. Compressible data so that
+	// the forward direction is applied.
+	{
+		type dcase struct {
+			tr    string
+			base  int
+			delta []int
+		}
+		fam := []dcase{{"ROLZX", 16 << 20, []int{1, 3, 7, 12}}, {"ROLZ", 16 << 20, []int{1, 5, 12}}}
+		if r.Thorough() {
+			all := []int{-1, 0, 1, 2, 3, 4, 5, 6, 7, 8, 9, 10, 11, 12, 13, 4097}
+			fam = []dcase{{"ROLZX", 16 << 20, all}, {"ROLZ", 16 << 20, all}, {"ROLZX", 32 << 20, []int{0, 2, 6, 12}}, {"ROLZ", 32 << 20, []int{2, 6}}}
+		}
+		idx := 0
+		for _, f := range fam {
+			for _, d := range f.delta {
+				idx++
+				if !r.Mine(idx) || r.Failed() {
+					continue
+				}
+				c := C13Case{Transform: f.tr, Direct: idx%2 == 0, Entropy: "NONE", DataType: -1, Jobs: 1,
+					Data: gen.Recipe{Kind: []int{gen.KText, gen.KRuns, gen.KXML}[idx%3], Len: f.base + d, Seed: uint64(idx), P1: 1}}
+				o := c13Eval(r, c)
+				r.Label("directed:rolz-chunk-boundary")
+				if o.msg != "" {
+					if r.Survey() {
+						r.Violation(t, "transform", c, "%s", o.msg)
+						continue
+					}
+					r.RecordFailure("transform", c, "", o.msg)
+					t.Fatalf("chunk-boundary family: %s on %s", o.msg, jsonOf(c))
+				}
+			}
+		}
+		r.SetExhaustive("ROLZ/ROLZX block lengths around the 16 MiB internal chunk", true)
+	}
 	if r.Thorough() {
 		r.Rapid(t, "large", 0, 400, prop(9<<20))
 		// BWT/BWTS above the 4 MiB threshold with several jobs
